@@ -25,6 +25,7 @@ EXPLANATION = (
     "both sets before signalling. Equivalence for all event sequences (delete-then-recreate, directory moves, inotify "
     "coalescing) is run-time behaviour and is NOT claimed. "
     'Also: record_change is interpreted over the previous membership of the path (last event wins, 6 points); the watch-side and restart-side glob reactions iterate the same registrations; R-C14-4 on resume the directories of every state a restart rescans are watched, and missing directories are remembered at every level.'
+    ' R-C14-5 the watches below a removed or moved directory are dropped with it (separator-terminated prefix); R-C14-6 paths the watcher could not hash stay recorded; R-C14-7 every hop from inotify to the workflow forwards; R-C14-8 input nodes created while resolving a supply are watched at once.'
 )
 ASSUMPTIONS = ["inotify event delivery and coalescing are not modelled"]
 
